@@ -120,7 +120,7 @@ def cases(ctx):
     if ctx.shard == 0:
         yield {'kind': 'repo-tests'}        # the repository's own tests under K9, as one more workload
     r = ctx.rng('hist')
-    for n in range(ctx.size(16000, 900000)):
+    for n in range(ctx.size(16000, 1800000)):
         nm = r.choice([0, 1, 2, 2, 3, 3, 4, 5])
         names = r.sample(NAMES, r.randint(1, len(NAMES)))
         members = [gen_member(r, names) for _ in range(nm)]
